@@ -24,7 +24,7 @@ RULE = (
     "with >= 2 fields; distinct = distinct (hierarchy source, order, first accessor)"
 )
 ASSUMPTIONS = ["dataclass field merge order computed from the spec is cross-checked against dataclasses.fields on every class"]
-MUST_SEE = ["returned_sequence_mutated_by_caller", "same_named_class_pairs", "equal_twin_with_reused_id", "explicit_hash_flag", "init_false_and_compare_false", "subclass_first", "base_first", "falsy_children", "empty_tuples", "overrides", "positional_calls", "multiple_inheritance", "accessor_calls"]
+MUST_SEE = ["derived_init_false_properties", "returned_sequence_mutated_by_caller", "same_named_class_pairs", "equal_twin_with_reused_id", "explicit_hash_flag", "init_false_and_compare_false", "subclass_first", "base_first", "falsy_children", "empty_tuples", "overrides", "positional_calls", "multiple_inheritance", "accessor_calls"]
 CONFIG = {
     "quick": {"shards": 16, "hierarchies": 14, "watchdog_s": 300},
     "thorough": {"shards": 32, "hierarchies": 150, "watchdog_s": 3000},
@@ -66,6 +66,17 @@ class {P}It(ASTNode):
     def __contains__(self, x):
         return any(x is k for k in self.kids)
 
+@dataclass(frozen=True)
+class {P}Dv(ASTNode):
+    # properties derived in __post_init__ (declared init=False with a placeholder default)
+    a: int = 1
+    twice: int = field(default=0, init=False)
+    label: str = field(default="", init=False, compare=False)
+    def __post_init__(self):
+        object.__setattr__(self, "twice", self.a * 2)
+        object.__setattr__(self, "label", f"a={self.a}")
+        super().__post_init__()
+
 {P}Ref = NewType("{P}Ref", {P}N0)
 {P}RefSeq = NewType("{P}RefSeq", tuple[{P}Ref, ...])
 {P}RefOpt = NewType("{P}RefOpt", Optional[{P}Ref])
@@ -86,6 +97,11 @@ def child_pool(P):
         ("one", f"{P}It", (f"{P}It",)),
         ("opt", f"{P}It | None", (f"{P}It",)),
         ("tuple", f"tuple[{P}It | {N0}, ...]", (f"{P}It", N0)),
+        # typing.Annotated around the annotation, also around a quoted reference
+        ("opt", f'Annotated["{N0} | None", "doc"]', (N0,)),
+        ("tuple", f'Annotated[tuple[{N0}, ...], "doc", 5]', (N0,)),
+        ("one", f'Annotated["{N0}", "doc"]', (N0,)),
+        ("opt", f'Annotated[Optional["{N1}"], "doc"]', (N1,)),
         # NewType aliases: of a node class, and of a generic over such an alias
         ("one", f"{P}Ref", (N0,)),
         ("tuple", f"{P}RefSeq", (N0,)),
@@ -436,6 +452,13 @@ def run_shard(ctx):
                 ctx.count("subclass_first" if perm[0] != 0 else "base_first")
             if sum(len(s.fields) for s in specs) >= 2:
                 ctx.fp((detail["source"].replace(P, "P_"), perm, first_acc))
+            # a class whose init=False properties are derived in __post_init__: the accessors report the values the node holds
+            dv = U.module.__dict__[f"{P}Dv"](a=3 + ci)
+            ctx.evaluations += 1
+            ctx.count("derived_init_false_properties")
+            got_ = {f_.name: v_ for v_, f_ in dv.get_properties(sort_keys=bool(ci % 2))}
+            if got_.get("twice") != dv.twice or got_.get("label") != dv.label or dv.to_properties_dict().get("twice") != 2 * (3 + ci) or dv.to_properties_dict().get("label") != f"a={3 + ci}":
+                ctx.violation("get_properties", "get_properties / to_properties_dict do not report the values an init=False property holds (derived in __post_init__)", {"got": {k_: repr(v_) for k_, v_ in got_.items() if k_ in ("twice", "label")}, "held": (dv.twice, dv.label)})
             irng = ctx.rng(case, f"inst{ci}")
             try:
                 for k, idx in enumerate(perm):
